@@ -52,14 +52,18 @@ func destForms(v Variant, rng *rand.Rand, catalogue bool) string {
 			return "unreach:3"
 		}
 		if v.V6 {
-			return pick(rng, "unreach:4", "unreach:1", "unreachFull:4", "unreach:0")
+			return pick(rng, "unreach:4", "unreach:1", "unreachFull:4", "unreach:0", fmt.Sprintf("unreach:%d", rng.IntN(8)))
 		}
-		return pick(rng, "unreach:3", "unreach:13", "unreachFull:3", "unreach:2", "unreach:10")
+		return pick(rng, "unreach:3", "unreach:13", "unreachFull:3", "unreach:2", "unreach:10", fmt.Sprintf("unreach:%d", rng.IntN(16)))
 	case "tcp":
 		if !catalogue {
 			return pick(rng, "synack", "rstack")
 		}
-		return pick(rng, "synack", "rst", "rstack")
+		f := pick(rng, "synack", "rst", "rstack")
+		if chance(rng, 0.2) {
+			f += fmt.Sprintf(":%d", pick(rng, 0x40, 0xc0, 0x08, 0x20, 0x80, 0xe8))
+		}
+		return f
 	case "sack":
 		return "sack"
 	}
@@ -109,7 +113,7 @@ func genWireRun(rng *rand.Rand, o *wireOpts, fi int, actor string) *wireRun {
 	}
 	c.Paris, c.Loosen = v.Paris, v.Loosen
 	if v.Entry != "icmp" {
-		c.Port = pick(rng, 33434, 443, 80, 1, 65535, 8080)
+		c.Port = pick(rng, 33434, 443, 80, 1, 65535, 8080, between(rng, 1, 65535), between(rng, 1, 65535))
 	}
 	// TTL range
 	switch {
@@ -138,8 +142,8 @@ func genWireRun(rng *rand.Rand, o *wireOpts, fi int, actor string) *wireRun {
 	}
 	n := c.MaxTTL - c.MinTTL + 1
 	// timing
-	c.TimeoutMs = pick(rng, 150, 300, 500, 1000, 3000)
-	c.DelayMs = pick(rng, 0, 1, 5, 10, 50)
+	c.TimeoutMs = pick(rng, 150, 300, 500, 1000, 3000, between(rng, 120, 3000))
+	c.DelayMs = pick(rng, 0, 1, 5, 10, 50, between(rng, 0, 80))
 	if o.prodTimeouts {
 		c.TimeoutMs = pick(rng, 1000, 3000, 3000)
 		c.DelayMs = pick(rng, 0, 10, 50, 150, 350)
@@ -247,6 +251,9 @@ func genFlow(rng *rand.Rand, o *wireOpts, v Variant, c *sim.Call, fi int, actor 
 				}
 			}
 			r := sim.Reply{Form: form, DelayUs: delay, K: rng.IntN(4)}
+			if chance(rng, 0.5) {
+				r.Var = rng.Uint32() | 1
+			}
 			if o.catalogue && atDest && (v.Entry == "tcp" || v.Entry == "sack") && chance(rng, 0.2) {
 				r.OuterOpts = true // the destination's own reply under an IPv4 header with options
 			}
